@@ -1,13 +1,29 @@
 // Package vcontext stands in for "context" in functions extracted onto the
-// virtual runtime: expiry is an event the explorer schedules.
+// virtual runtime: expiry is an event the explorer schedules. The context of
+// the modelled world is the root; contexts derived from it (WithCancel,
+// WithTimeout) expire with their parent, when cancelled, or when the explorer
+// schedules their timer.
 package vcontext
 
-import "verif/virt/vrt"
+import (
+	"context"
+	"time"
+
+	"verif/sched"
+	"verif/virt/vrt"
+)
 
 type Context interface {
 	Done() *vrt.Chan[struct{}]
 	Err() error
 }
+
+type CancelFunc func()
+
+var (
+	Canceled         = context.Canceled
+	DeadlineExceeded = context.DeadlineExceeded
+)
 
 type ctx struct{}
 
@@ -16,3 +32,110 @@ func (ctx) Err() error                { return vrt.W().CtxErr }
 
 // Current returns the context of the modelled world.
 func Current() Context { return ctx{} }
+
+// never is a context that is never done.
+type never struct{ c *vrt.Chan[struct{}] }
+
+func (n never) Done() *vrt.Chan[struct{}] { return n.c }
+func (never) Err() error                  { return nil }
+
+func Background() Context { return never{vrt.NewChan[struct{}](0)} }
+func TODO() Context       { return never{vrt.NewChan[struct{}](0)} }
+
+// derived is a context made by WithCancel / WithTimeout.
+type derived struct {
+	done *vrt.Chan[struct{}]
+	err  error
+	kids []*derived
+}
+
+func (d *derived) Done() *vrt.Chan[struct{}] { return d.done }
+func (d *derived) Err() error                { return d.err }
+
+func (d *derived) finish(err error) {
+	if d.err != nil {
+		return
+	}
+	d.err = err
+	d.done.Close()
+	for _, k := range d.kids {
+		k.finish(err)
+	}
+}
+
+// rootKids are the contexts derived directly from the world's context.
+func rootKids() *[]*derived {
+	w := vrt.W()
+	if w.CtxKids == nil {
+		w.CtxKids = &[]*derived{}
+	}
+	return w.CtxKids.(*[]*derived)
+}
+
+// RootExpired is called by the harness right after the world's context has
+// expired: contexts derived from it expire too.
+func RootExpired() {
+	for _, k := range *rootKids() {
+		k.finish(vrt.W().CtxErr)
+	}
+}
+
+func derive(parent Context) *derived {
+	d := &derived{done: vrt.NewChan[struct{}](0)}
+	switch p := parent.(type) {
+	case ctx:
+		kids := rootKids()
+		*kids = append(*kids, d)
+	case *derived:
+		p.kids = append(p.kids, d)
+	}
+	if err := parent.Err(); err != nil {
+		d.finish(err)
+	}
+	return d
+}
+
+func WithCancel(parent Context) (Context, CancelFunc) {
+	d := derive(parent)
+	return d, func() { d.finish(Canceled) }
+}
+
+// WithTimeout: the timeout is a timer of the modelled world (it is logged like
+// one); when it fires is the explorer's choice.
+func WithTimeout(parent Context, _ time.Duration) (Context, CancelFunc) {
+	d := derive(parent)
+	if d.err != nil {
+		return d, func() {}
+	}
+	w := vrt.W()
+	w.Log = append(w.Log, "timer-created")
+	sched.Go("timer-fires", func() {
+		sched.Block(sched.Op{Kind: "event", Obj: "timer-fires"}, func() bool { return true })
+		if d.err != nil {
+			return
+		}
+		w.Log = append(w.Log, "timer-fired")
+		d.finish(DeadlineExceeded)
+	})
+	return d, func() { d.finish(Canceled) }
+}
+
+// AfterFunc runs f in its own goroutine once c is done.
+func AfterFunc(c Context, f func()) (stop func() bool) {
+	stopped, started := false, false
+	sched.Go("after-func", func() {
+		sched.Block(sched.Op{Kind: "event", Obj: "after-func"}, func() bool { return stopped || c.Err() != nil })
+		if stopped {
+			return
+		}
+		started = true
+		f()
+	})
+	return func() bool {
+		if started || stopped {
+			return false
+		}
+		stopped = true
+		return true
+	}
+}
